@@ -9,8 +9,8 @@ from . import common, search, search_oracles as so
 from .common import Check
 
 GEN_TARGETS = ['search', 'geoassignments', 'heapdict']
-GEN_TARGETS_EXH = GEN_TARGETS + ['exhaustive']     # properties whose theorems are also stated on the translated exhaustive_search
-GEN_TARGETS_ALL = GEN_TARGETS + ['exhaustive', 'greedy', 'results', 'design', 'admission']   # ... and on the translated _greedy_search / search_results
+GEN_TARGETS_EXH = GEN_TARGETS + ['exhaustive', 'score']     # properties whose theorems are also stated on the translated exhaustive_search
+GEN_TARGETS_ALL = GEN_TARGETS + ['exhaustive', 'greedy', 'results', 'design', 'admission', 'score']   # ... and on the translated _greedy_search / search_results
 
 TRUSTED_BASE = [
     'Coq 8.16.1 kernel and vm_compute (no native_compute); primitive floats (PrimFloat) only in the executable '
